@@ -124,8 +124,11 @@ package rsync
 //@   loop 1 invariant[inrange] txmaxend <= max(old(txmaxend), old(coalescedStart) + old(coalescedCount))
 //@   loop 1 invariant[kept] len(data) <= old(len(data)) && (old(len(data)) == 0 ==> txcalls == old(txcalls) && txdata == old(txdata))
 
+// (requires[valid] is sigvalid(base), written out so that the quantified part
+// is available for instantiation)
 //@ func (*Engine).Deltify
-//@   requires[valid] sigvalid(base)
+//@   requires[valid] base != nil && sigsizes(base)
+//@   requires[valid] forall k in 0..len(base.Hashes) :: base.Hashes[k] != nil
 //@   requires[fits] bufferfits(base, maxDataOpSize)
 //@   ensures[wellformed] txmalformed == old(txmalformed)
 //@   ensures[limit] txmaxdata <= max(old(txmaxdata), effmax(maxDataOpSize))
@@ -133,9 +136,11 @@ package rsync
 //@   at call panic assert[nopanic] false
 // lookup table: every block index stored in it denotes a full-size block of the base
 //@   loop 1 invariant -1 <= rangeindex && rangeindex < len(hashes) || (rangeindex == -1 && len(hashes) == 0)
-//@   loop 1 invariant[table] forall j in 0..9223372036854775807 :: forall w in 0..4294967296 :: has(weakToBlockHashes, w) && j < len(weakToBlockHashes[w]) ==> weakToBlockHashes[w][j] <= rangeindex
-//@   loop 1 invariant[tablebase] forall w in 0..4294967296 :: has(weakToBlockHashes, w) ==> base(weakToBlockHashes[w]) != 0 && loopfresh(weakToBlockHashes[w])
-//@   loop 1 invariant[separate] forall w in 0..4294967296 :: forall v in 0..4294967296 :: has(weakToBlockHashes, w) && has(weakToBlockHashes, v) && w != v ==> base(weakToBlockHashes[w]) != base(weakToBlockHashes[v])
+// ("false ||" keeps the nested quantifier out of the verifier's own instantiation heuristics)
+//@   loop 1 invariant[table] false || forall w in 0..4294967296 :: forall j in 0..len(weakToBlockHashes[w]) :: has(weakToBlockHashes, w) ==> weakToBlockHashes[w][j] <= rangeindex
+// (the next two are needed only while blocks remain to be inserted)
+//@   loop 1 invariant[tablebase] rangeindex + 1 < len(hashes) ==> forall w in 0..4294967296 :: has(weakToBlockHashes, w) ==> base(weakToBlockHashes[w]) != 0 && loopfresh(weakToBlockHashes[w])
+//@   loop 1 invariant[separate] rangeindex + 1 < len(hashes) ==> forall w in 0..4294967296 :: forall v in 0..4294967296 :: has(weakToBlockHashes, w) && has(weakToBlockHashes, v) && w != v ==> base(weakToBlockHashes[w]) != base(weakToBlockHashes[v])
 // search loop: the buffer is empty or holds at least one block and has room for one more byte
 //@   loop 2 invariant[buffer] len(buffer) == maxDataOpSize + base.BlockSize && maxDataOpSize == effmax(old(maxDataOpSize))
 //@   loop 2 invariant[occupancy] occupancy == 0 || (base.BlockSize <= occupancy && occupancy < len(buffer))
